@@ -1,2 +1,3 @@
 """Imports every tr_*.py module so that their translators register."""
 from . import tr_names  # noqa
+from . import tr_ops  # noqa
